@@ -241,3 +241,100 @@ Example C01_matches_raw_example :
   option_map (denote en) (mk_matches_raw s [RInt 6]) = Some 0 /\
   mk_matches_raw s [RStr [C1; C1]] = None /\ mk_matches_raw s [RStr [C1; COther; C1]] = None.
 Proof. vm_compute. repeat split. Qed.
+
+(* ================= added after the coverage audit (docs/COVERAGE_AUDIT.md) ================= *)
+
+(* operands that are Python ints (`a + 1`, `1 - a`: Value.cast(v) = Const(v)) compute with the integer itself, on either
+   side (reflected operators), for every operator but the shifts … *)
+Theorem C01_int_operand_spec en o e v : wf_expr e = true ->
+  (match o with OShl | OShr => False | _ => True end) ->
+  wf_expr (EOp2 o e (mk_const_auto v)) = true /\ wf_expr (EOp2 o (mk_const_auto v) e) = true /\
+  denote en (EOp2 o e (mk_const_auto v)) = den_op2 o (denote en e) v /\
+  denote en (EOp2 o (mk_const_auto v) e) = den_op2 o v (denote en e).
+Proof. exact (int_operand_spec en o e v). Qed.
+Print Assumptions C01_int_operand_spec.
+
+(* … and for the shifts: `a << v` is accepted exactly when v >= 0, `v << a` exactly when a is unsigned *)
+Theorem C01_int_shift_spec en o e v : wf_expr e = true -> (o = OShl \/ o = OShr) ->
+  wf_expr (EOp2 o e (mk_const_auto v)) = (0 <=? v) /\
+  wf_expr (EOp2 o (mk_const_auto v) e) = negb (sgn (shape_of e)) /\
+  denote en (EOp2 o e (mk_const_auto v)) = den_op2 o (denote en e) v /\
+  denote en (EOp2 o (mk_const_auto v) e) = den_op2 o v (denote en e).
+Proof. exact (int_shift_spec en o e v). Qed.
+Print Assumptions C01_int_shift_spec.
+
+(* a member of an integer enumeration used as an operand is a constant of the class's shape holding its value *)
+Theorem C01_enum_const_spec en ms v : In v ms ->
+  wf_expr (mk_enum_const ms v) = true /\ denote en (mk_enum_const ms v) = v.
+Proof. exact (enum_const_spec en ms v). Qed.
+Print Assumptions C01_enum_const_spec.
+
+Example C01_int_operand_example :
+  let en : env := fun _ => -3 in let s := ESig 0 (Sh 3 true) in
+  denote en (EOp2 OSub (mk_const_auto 1) s) = 4 /\ shape_of (EOp2 OSub (mk_const_auto 1) s) = Sh 4 true /\
+  denote en (EOp2 OShl s (mk_const_auto 17)) = -393216 /\ shape_of (EOp2 OShl s (mk_const_auto 17)) = Sh 34 true /\
+  wf_expr (EOp2 OShl s (mk_const_auto (-1))) = false /\
+  denote en (EOp2 OAdd s (mk_enum_const [2; -5] (-5))) = -8.
+Proof. vm_compute. repeat split. Qed.
+
+(* Array(elems)[index] for an index of ANY shape and ANY number of elements (more than the index can address, none):
+   the element at the position the index holds, and 0 when the index value is not a position of the list — in
+   particular for every negative value of a signed index *)
+Theorem C01_array_raw_spec en elems index : wf_expr index = true -> env_ok en index ->
+  denote en (mk_array_raw elems index) =
+  if (0 <=? denote en index) && (denote en index <? Z.of_nat (length elems))
+  then denote en (nth (Z.to_nat (denote en index)) elems (EConst 0 (Sh 0 false))) else 0.
+Proof. exact (mk_array_raw_spec en elems index). Qed.
+Print Assumptions C01_array_raw_spec.
+
+Theorem C01_array_raw_unsigned elems index : wf_shape (shape_of index) = true -> sgn (shape_of index) = false ->
+  mk_array_raw elems index = mk_array elems index.
+Proof. exact (mk_array_raw_unsigned elems index). Qed.
+Print Assumptions C01_array_raw_unsigned.
+
+(* ArrayProxy.shape() is the shape of the value the proxy converts to whenever every element is addressable … *)
+Theorem C01_array_proxy_shape_exact elems index : Z.of_nat (length elems) <= 2 ^ ewidth index ->
+  shape_of (mk_array_raw elems index) = array_proxy_shape elems.
+Proof. exact (array_proxy_shape_exact elems index). Qed.
+Print Assumptions C01_array_proxy_shape_exact.
+
+(* … and NOT otherwise: with three elements and a 1-bit index the proxy reports unsigned(8) while the value it converts
+   to (and len(proxy)) is 1 bit wide *)
+Theorem C01_array_proxy_shape_refuted : exists elems index, wf_expr index = true /\ forallb wf_expr elems = true /\
+  shape_of (mk_array_raw elems index) <> array_proxy_shape elems.
+Proof.
+  exists [ESig 1 (Sh 1 false); ESig 2 (Sh 1 false); ESig 3 (Sh 8 false)], (ESig 0 (Sh 1 false)).
+  vm_compute. repeat split; congruence.
+Qed.
+Print Assumptions C01_array_proxy_shape_refuted.
+
+Example C01_array_raw_example :
+  let s := ESig 0 (Sh 2 true) in
+  let elems := [EConst 5 (Sh 3 false); EConst 6 (Sh 3 false); EConst 7 (Sh 3 false)] in
+  map (fun v => denote (fun _ => v) (mk_array_raw elems s)) [-2; -1; 0; 1] = [0; 0; 5; 6] /\
+  denote (fun _ => 1) (mk_array2 [[EConst 1 (Sh 2 false); EConst 2 (Sh 2 false)]; [EConst 3 (Sh 2 false)]]
+                                 (ESig 0 (Sh 1 false)) (ESig 0 (Sh 1 false))) = 0.
+Proof. vm_compute. split; reflexivity. Qed.
+
+(* the exception-class function used by the correspondence run answers 0 exactly on the well-formed expressions *)
+Theorem C01_build_err_wf e : build_err e = 0 <-> wf_expr e = true.
+Proof. exact (build_err_wf e). Qed.
+Print Assumptions C01_build_err_wf.
+
+(* Value.replicate regenerated from the source, for any integer count (negative: TypeError) *)
+Theorem C01_translated_replicate_z e c : DerivedGen.g_replicate e c = mk_replicate_z e c.
+Proof. exact (GenEqDerived.gen_replicate_eq e c). Qed.
+Print Assumptions C01_translated_replicate_z.
+
+(* FINDING (reported): bit_select / word_select document `TypeError if offset is signed`, but a CONSTANT signed offset
+   is folded through Python's negative indexing before any check: value.bit_select(Const(-2, signed(3)), 1) is accepted
+   and reads bit len-2.  The statement "a signed offset is rejected" is false of the source (g_bit_select is regenerated
+   from hdl/_ast.py and equals mk_bit_select); C01_bit_select_spec therefore keeps its unsigned-offset hypothesis. *)
+Theorem C01_bit_select_signed_offset_refuted : exists e off w r,
+  wf_expr e = true /\ wf_expr off = true /\ sgn (shape_of off) = true /\
+  DerivedGen.g_bit_select e off w = Some r /\ wf_expr r = true /\ r = ESlice e 2 3.
+Proof.
+  exists (ESig 0 (Sh 4 false)), (EConst (-2) (Sh 3 true)), 1, (ESlice (ESig 0 (Sh 4 false)) 2 3).
+  rewrite GenEqDerived.gen_bit_select_eq by (vm_compute; congruence). vm_compute. repeat split.
+Qed.
+Print Assumptions C01_bit_select_signed_offset_refuted.
